@@ -9,7 +9,7 @@ from .. import sigs
 
 MANIFEST = dict(
     technique="Lean 4 proof: polynomial identities on Gaussian rationals (executable model, `ring`) and the normalised statements over C for any c with c*c=2 (Mathlib: field_simp / linear_combination) + differential correspondence of to_linear/to_circular/to_stokes/to_intensity and Stokes component access on exactly representable inputs",
-    level_text="proved: power preservation, both round trips = identity, Stokes definitions, basis independence of all four Stokes parameters, I^2=Q^2+U^2+V^2, I>=0, I = summed intensity, component access by the generated name table; tied: every sample of the real conversions compared with the exact model (times 1/sqrt 2) for both starting bases, both widths, NumPy and Dask, with pol_type/class/labels",
+    level_text="proved: the formulas evaluated symbolically from the bodies of to_linear/to_circular/to_stokes/to_intensity on every run ARE the model's functions (C13_source_formulas, robust to algebraically equal rewrites); power preservation, both round trips = identity, Stokes definitions, basis independence of all four Stokes parameters, I^2=Q^2+U^2+V^2, I>=0, I = summed intensity, component access by the generated name table; tied: every sample of the real conversions compared with the exact model (times 1/sqrt 2) for both starting bases, both widths, NumPy and Dask, with pol_type/class/labels",
     level_note="Trusted: Lean kernel + Mathlib (3 std axioms); hand model PbModel/Pol.lean tied by correspondence; float evaluation of the 2x2 maps validated at 8 ulp of the dtype (inputs are small dyadic rationals, so Stokes products are exact in float64)",
 )
 
@@ -19,7 +19,7 @@ class Prop(PropBase):
     lean_targets = ["PbProps.C13"]
     theorems = ["Pb.C13." + t for t in ("C13_unitary_model", "C13_inverse_model", "C13_basis_independent_model",
                                         "C13_stokes_model", "C13_component_index", "C13_inverse", "C13_unitary",
-                                        "C13_basis_independent", "C13_polarised")]
+                                        "C13_basis_independent", "C13_polarised", "C13_source_formulas")]
     trusted_base = ["PbModel/Pol.lean (hand model); Gen/Classes.lean stokes ids (translator)"]
     assumptions = []
     rule = ("DualPolarizationSignal with 1-3 channels, optional trailing dims, 2-6 samples whose components are random dyadic "
